@@ -6,6 +6,7 @@ From SU Require Import F32.
 From SU.Model Require Import Midi.
 From SU.Spec Require Import MidiSpec.
 From SU.Proofs Require Import MidiParserProofs MidiLiftProofs.
+From SU.Proofs Require Import MidiExtraProofs.
 Open Scope Z_scope.
 
 (** the messages the byte-at-a-time parser completes are exactly those of the
@@ -59,9 +60,34 @@ Example C06_example :
   = [MNoteOn 0 60 100; MNoteOn 0 64 90; MNoteOff 0 60 0].
 Proof. vm_compute. reflexivity. Qed.
 
+(** byte level: a status byte of another channel followed by any number of data bytes (a complete message, a partial one, or running-status repeats), inserted anywhere before a point where the next non-real-time byte is a status byte (or the stream ends), does not change any getter after the whole stream *)
+Theorem C06_foreign_bytes_transparent : forall ch l1 s d l2,
+  Forall is_byte (l1 ++ l2) ->
+  foreign_status ch s -> Forall data_byte d ->
+  at_boundary l2 ->
+  observe (run_bytes ch (l1 ++ s :: d ++ l2)) = observe (run_bytes ch (l1 ++ l2)).
+Proof. exact C06_foreign_bytes_transparent. Qed.
+
+(** in particular a complete channel-voice message for another channel *)
+Theorem C06_foreign_message_bytes : forall ch l1 mb l2,
+  Forall is_byte (l1 ++ l2) ->
+  voice_message_bytes mb -> message_channel mb <> Z.min ch 15 ->
+  at_boundary l2 ->
+  observe (run_bytes ch (l1 ++ mb ++ l2)) = observe (run_bytes ch (l1 ++ l2)).
+Proof. exact C06_foreign_message_bytes. Qed.
+
+(** the boundary condition has to skip real-time bytes: a real-time byte does not end running status *)
+Theorem C06_boundary_condition_needed :
+  observe (run_bytes 0 ([144; 60; 100] ++ [145; 1; 1] ++ [248; 62; 100]))
+  <> observe (run_bytes 0 ([144; 60; 100] ++ [248; 62; 100])).
+Proof. exact boundary_condition_needed. Qed.
+
 Print Assumptions C06_parser_decodes.
 Print Assumptions C06_framing.
 Print Assumptions C06_realtime_transparent.
 Print Assumptions C06_foreign_channel_transparent.
 Print Assumptions C06_no_panic.
 Print Assumptions C06_ops_lift.
+Print Assumptions C06_foreign_bytes_transparent.
+Print Assumptions C06_foreign_message_bytes.
+Print Assumptions C06_boundary_condition_needed.
